@@ -294,7 +294,25 @@ pub fn make_hubs(case_oracle: OracleCfg, backend: Backend, fault: &Option<Fault>
     (hub, chub)
 }
 
+std::thread_local! {
+    /// when set, `Backend::Process` uses this factory (the proc engine routes it to the simulated seam)
+    static PROCESS_FACTORY_OVERRIDE: std::cell::RefCell<Option<std::rc::Rc<dyn Fn() -> Box<dyn SatSolver>>>> = const { std::cell::RefCell::new(None) };
+}
+
+/// Runs a static case whose backend is `Process` with the given factory instead of fakesat.
+pub fn exec_static_with_factory(case: &StaticCase, f: &'static (dyn Fn() -> Box<dyn SatSolver> + Sync)) -> ExecOut {
+    PROCESS_FACTORY_OVERRIDE.with(|c| *c.borrow_mut() = Some(std::rc::Rc::new(move || f())));
+    let out = exec_static(case, ExecOpts::default());
+    PROCESS_FACTORY_OVERRIDE.with(|c| *c.borrow_mut() = None);
+    out
+}
+
 pub fn factory_for(backend: Backend, hub: &Hub, chub: &Option<CHub>) -> Fac {
+    if let Backend::Process { .. } = backend {
+        if let Some(f) = PROCESS_FACTORY_OVERRIDE.with(|c| c.borrow().clone()) {
+            return Box::new(move || f());
+        }
+    }
     match backend {
         Backend::Sim => simsat::factory(hub),
         Backend::Ext { .. } => simsat::ext_factory(hub, chub.as_ref().unwrap()),
